@@ -77,8 +77,10 @@ impl Apath {
             Ordering::Greater => false,
             Ordering::Equal => self.0 == a.0,
             Ordering::Less => {
+                // Compare whole components: the byte after the common prefix must be a
+                // separator. (Index by bytes, not chars: `len` is a byte length.)
                 a.0.starts_with(&self.0)
-                    && (self.0.ends_with('/') || a.0.chars().nth(self.0.len()) == Some('/'))
+                    && (self.0.ends_with('/') || a.0.as_bytes()[len] == b'/')
             }
         }
     }
